@@ -164,7 +164,9 @@ func (t *timestampOracle) loadTimestamp() (time.Time, error) {
 			log.Error("parse timestamp window that from etcd failed", zap.String("dc-location", t.dcLocation), zap.String("ts-window-key", key), zap.Time("max-ts-window", maxTSWindow), zap.Error(err))
 			continue
 		}
-		if typeutil.SubRealTimeByWallClock(tsWindow, maxTSWindow) > 0 {
+		// Compare as times: the difference of the UnixNano readings wraps against the zero time for every
+		// window later than 2046, and such a window was ignored.
+		if tsWindow.After(maxTSWindow) {
 			maxTSWindow = tsWindow
 		}
 	}
